@@ -532,4 +532,74 @@ theorem mkStream_isSome (l : List N) (h : l ≠ []) : (mkStream l).isSome := by
     · exact ⟨f, List.mem_cons_self .., by simp [h]⟩
     · exact ⟨n, List.mem_cons_of_mem _ hn, by simp [e]⟩
 
+/-- `Contig(notes)` does not raise on a non-empty note list: the number of streams is the maximal
+    number of simultaneously sounding notes, no onset has more sounding notes than streams, and every
+    stream receives a note at the contig's onset -/
+theorem mkContig_isSome (l : List N) (hne : l ≠ []) : (mkContig l).isSome := by
+  have hnotes : byOnset l ≠ [] := by
+    intro e
+    have := congrArg List.length e
+    simp only [byOnset, isort_length, List.length_nil] at this
+    exact hne (List.eq_nil_of_length_eq_zero this)
+  generalize hN : byOnset l = notes at hnotes
+  have hcounts : (timepoints notes).map (fun tp => (sounding notes tp).length) = (timepoints notes).map (cnt notes) :=
+    List.map_congr_left (fun t _ => sounding_length notes t)
+  have hutp := timepoints_ne_nil notes hnotes
+  -- the contig onset
+  have hex : ∃ c ∈ timepoints notes, cnt notes c = maxCnt notes := by
+    rcases foldl_max_mem ((timepoints notes).map (cnt notes)) 0 with h | h
+    · obtain ⟨t, ht⟩ := List.exists_mem_of_ne_nil _ hutp
+      refine ⟨t, ht, ?_⟩
+      have := cnt_le_max notes t ht
+      unfold maxCnt at this ⊢
+      omega
+    · obtain ⟨t, ht, e⟩ := List.mem_map.mp h
+      exact ⟨t, ht, e⟩
+  have hfind : ((timepoints notes).find? fun t => (sounding notes t).length == maxCnt notes).isSome := by
+    rw [List.find?_isSome]
+    obtain ⟨c, hc, e⟩ := hex
+    exact ⟨c, hc, by simp [sounding_length, e]⟩
+  obtain ⟨c, hc⟩ := Option.isSome_iff_exists.mp hfind
+  obtain ⟨hpc, as, bs, hsplit, has⟩ := List.find?_eq_some_iff_append.mp hc
+  have hcm : cnt notes c = maxCnt notes := by simpa [sounding_length] using hpc
+  have hcin : c ∈ timepoints notes := by rw [hsplit]; simp
+  have hfirst : ∀ t ∈ timepoints notes, t < c → cnt notes t ≠ maxCnt notes := by
+    intro t ht hlt
+    have hs := timepoints_strict notes
+    rw [hsplit] at ht hs
+    rcases List.mem_append.mp ht with h | h
+    · have := has t h
+      simpa [sounding_length] using this
+    · exfalso
+      have hp := (List.pairwise_append.mp hs).2.1
+      rcases List.mem_cons.mp h with rfl | h
+      · exact lt_irrefl _ hlt
+      · exact lt_asymm hlt ((List.pairwise_cons.mp hp).1 t h)
+  obtain ⟨maxOn, hmax⟩ := Option.isSome_iff_exists.mp
+    (maxRat_isSome (notes.map fun n => n.on) (by simpa using hnotes))
+  -- the streams
+  have hle : ∀ o ∈ (uniqueOnsets notes).filter (fun o => decide (c ≤ o)), (sounding notes o).length ≤ maxCnt notes := by
+    intro o ho
+    rw [sounding_length]
+    apply cnt_le_max
+    obtain ⟨n, hn, e⟩ := (mem_uniqueOnsets notes o).mp (List.mem_filter.mp ho).1
+    exact (mem_timepoints notes o).mpr (Or.inl ⟨n, hn, e⟩)
+  obtain ⟨ss, hss, hlen, _, hD⟩ := fold_streams notes (maxCnt notes) _ (List.replicate (maxCnt notes) [])
+    (by simp) hle
+  have hall : ∀ s ∈ ss, (mkStream s).isSome := by
+    intro s hs
+    apply mkStream_isSome
+    obtain ⟨i, hi, rfl⟩ := List.mem_iff_getElem.mp hs
+    have hpos : 0 < maxCnt notes := by omega
+    obtain ⟨n, hn, e⟩ := first_max_is_onset notes c hcm hpos hfirst
+    have hco : c ∈ (uniqueOnsets notes).filter (fun o => decide (c ≤ o)) :=
+      List.mem_filter.mpr ⟨(mem_uniqueOnsets notes c).mpr ⟨n, hn, e⟩, by simp⟩
+    exact hD c hco i (by rw [sounding_length, hcm, ← hlen]; exact hi) _ (List.getElem?_eq_getElem hi)
+  obtain ⟨st, hst⟩ := Option.isSome_iff_exists.mp (mapM_isSome mkStream ss hall)
+  simp only [mkContig, hN]
+  have hm : ((timepoints notes).map fun tp => (sounding notes tp).length).foldl max 0 = maxCnt notes := by
+    rw [hcounts]; rfl
+  rw [hm, find?_zip_map (fun tp => (sounding notes tp).length) (fun k => k == maxCnt notes), hc, hmax]
+  simp only [Option.map_some, hss, Option.bind_some, hst, Option.isSome_some]
+
 end C17T
